@@ -329,6 +329,16 @@ def render_fn(fs, out, unit, log):
             ins(a, nm, {"type": "rewrite", "rule": "R2", "fn": flabel, "unit": unit}, dl=b - a)
             r2_lets.append(f" let {pat} = {nm};")
             log["rewrites"].append({"rule": "R2", "fn": flabel, "from": pat, "to": nm})
+        elif fs.opts.get("mutparams") and not p["recv"] and text[c(p["pat"][0]) : c(p["pat"][1])].startswith("mut "):
+            # R2m (additive option `mutparams`, unit xlswb): `fn f(mut x: T) { B }` -> `fn f(__p_x: T) { let mut x = __p_x; B }` -- the
+            # definition of a `mut` by-value parameter (Rust reference, "function parameters are irrefutable patterns"); it gives the entry
+            # value of the parameter a name (`__p_x`) that contracts and loop invariants can mention after the body has mutated `x`
+            a, b = c(p["pat"][0]), c(p["pat"][1])
+            pat = text[a:b]
+            nm = "__p_" + pat[4:].strip()
+            ins(a, nm, {"type": "rewrite", "rule": "R2m", "fn": flabel, "unit": unit}, dl=b - a)
+            r2_lets.append(f" let {pat} = {nm};")
+            log["rewrites"].append({"rule": "R2m", "fn": flabel, "from": pat, "to": nm})
 
     # R2c: closures with pattern parameters `|PAT| BODY` -> `|__cK| { let PAT = __cK; BODY }` (Verus accepts only variables);
     # `//@@ closure K` parts put a Verus closure signature (`-> (r: T) requires .. ensures ..`) between `|params|` and the body
@@ -410,7 +420,7 @@ def render_fn(fs, out, unit, log):
             log["rewrites"].append({"rule": "R6", "fn": flabel, "loop": k, "iter": expr})
         elif kind == "closure":
             pass  # handled below
-        elif kind in ("before", "after", "replace", "replace?"):
+        elif kind in ("before", "after", "replace", "replace?", "before?", "after?"):
             m = re.match(r"/(.+)/(?:#(\d+)of(\d+))?\s*(.*)$", arg)
             if not m:
                 raise SystemExit(f"template line {tline}: bad anchor {arg}")
@@ -421,6 +431,12 @@ def render_fn(fs, out, unit, log):
             if kind == "replace?" and len(ms) == 0:
                 log["rewrites"].append({"rule": "adhoc-optional", "fn": flabel, "from": None, "to": ptxt.strip(), "why": "not applied: construct absent; " + m.group(4)})
                 continue
+            # `before?` / `after?`: optional proof-text anchor -- if the statement it hangs on was removed, the ghost text is simply not
+            # inserted (the proof then fails at a named obligation instead of the check ending with a lost anchor)
+            if kind in ("before?", "after?"):
+                if len(ms) == 0:
+                    continue
+                kind = kind[:-1]
             # `/re/` must match exactly once; `/re/#KofN` must match exactly N times and selects the K-th (0-based)
             want = int(m.group(3)) if m.group(3) else 1
             if len(ms) != want:
